@@ -225,15 +225,15 @@ class EffectInterp(Interpreter):
         kind = z3.Function(f"Ex[{node.k}].completion", WorldS, z3.IntSort())(w)
         allowed = getattr(self, "allowed_completions", ("normal", "break", "continue", "return"))
         names = ["normal", "break", "continue", "return"]
-        for i, n in enumerate(names[:-1]):
-            if n in allowed:
-                if self.eng.branch(kind == i, f"Ex[{node.k}]#{self.nprims}={n}"):
-                    return n, None
-            else:
+        self.eng.assume(z3.And(kind >= 0, kind <= 3))
+        for i, n in enumerate(names):
+            if n not in allowed:
                 self.eng.assume(kind != i)
-        if "return" not in allowed:
-            raise OutOfReach("no completion kind left")
-        return "return", v
+        for i, n in enumerate(names):
+            if n in allowed and self.eng.branch(kind == i, f"Ex[{node.k}]#{self.nprims}={n}"):
+                return n, (v if n == "return" else None)
+        from .core import PathInfeasible
+        raise PathInfeasible()
 
     LOOP_BOUND = 2
 
